@@ -1037,6 +1037,11 @@ pub fn setup_world(prog: &Program) {
         nw.writes_done = vec![0; n];
         nw.tls_regs = vec![0; n];
         nw.gen_set = vec![false; n];
+        nw.prog_readonly_churn = {
+            let t = serde_json::to_string(&prog.threads).unwrap_or_default();
+            !["Store", "Swap", "Cas", "Rcu", "IntoInner", "ReleaseCont", "SetGen", "Cache"].iter().any(|k| t.contains(k))
+                && t.contains("Spawn")
+        };
         nw.prog_wants_access = serde_json::to_string(prog).map(|t| t.contains("AccLoad")).unwrap_or(false);
         // Dropping the previous world releases pointers into the (already reset) arena only by
         // address: SimArc::drop would touch freed slots, so leak them instead.
@@ -1236,6 +1241,29 @@ fn final_state_check() {
         let o = arena::obj_info(u).unwrap();
         if o.destroyed != 1 {
             rt::fail("double-release", format!("object uid={} destroyed {} times", u, o.destroyed));
+            return;
+        }
+    }
+    // C11: with no writer anywhere in the program, a released node is always reusable by the
+    // next thread, so the number of nodes is bounded by the number of threads that ever existed
+    // at the same time (+1 slack for the non-atomic traversal), not by the number of threads
+    // ever created.
+    if w(|w| w.prog_readonly_churn) {
+        let nodes = arc_swap::verif::nodes().len() as u64;
+        let peak = rt::peak_live_threads();
+        w(|w| {
+            *w.extra_counts.entry("node_bound_checks".into()).or_insert(0) += 1;
+            let e = w.extra_counts.entry("max_nodes_in_bound_check".into()).or_insert(0);
+            *e = (*e).max(nodes);
+        });
+        if nodes > peak + 1 {
+            rt::fail(
+                "node-bound",
+                format!(
+                    "{} nodes exist although at most {} threads ever lived at the same time (read-only churn: released nodes must be reused)",
+                    nodes, peak
+                ),
+            );
             return;
         }
     }
